@@ -140,6 +140,7 @@ Section Safe.
     cx_dnul : Forall nonul dcs;
     cx_ac : acyclic f0;
     cx_dr0 : is_dir f0 dr = true;
+    cx_len : (length dcs < rfuel)%nat;
     cx_inv : Inv f0 dr f;
     cx_root : chain f rt dcs dr
   }.
